@@ -344,3 +344,14 @@ var Levels = map[string]string{}
 // Rules states, per property, how cases are generated and what counts as
 // non-trivial and distinct.
 var Rules = map[string]string{}
+
+// Assumptions lists, per property, what the check trusts.
+var Assumptions = map[string][]string{}
+
+// CommonAssumptions hold for every check.
+var CommonAssumptions = []string{
+	"the instrumenter's rewrites are semantics-preserving (each behaviour of the rewritten program is one the Go specification allows the original); checked by running the repository's own test suite on the instrumented copy under several schedules (./check selftest)",
+	"encoding/json's own map encoding, maps.Clone and maps.Copy are order-insensitive and are not instrumented",
+	"net/url implements RFC 3986 reference resolution (used by the universe generator to validate every generated reference form)",
+	"a clean batch is evidence, not proof: schedules, faults and worlds are sampled by seeded search",
+}
